@@ -10,7 +10,26 @@ use std::collections::{BTreeMap, HashSet};
 use std::time::{Duration, Instant};
 
 fn viol(sig: String, what: String, c: &Case) -> Violation {
-    Violation { signature: sig, what, case: json!({"family": c.family, "feature": c.feature, "cycles": c.cycles, "reference": c.reference, "prog": c.prog, "text": c.text()}) }
+    Violation { signature: sig, what, case: json!({"family": c.family, "feature": c.feature, "cycles": c.cycles, "reference": c.reference, "prog": c.prog, "raw": c.raw, "text": c.text()}) }
+}
+
+/// Family + feature as used in signatures. Strata that exercise one known root cause are
+/// coarsened to the discriminating part (one root cause => few signatures); everything else keeps
+/// the full feature tuple so that a new defect gets a new signature.
+fn ff(c: &Case) -> String {
+    let f = &c.feature;
+    match c.family {
+        // r := a OP <untyped literal>: the operand type is what matters, not the operator
+        "F1u" => {
+            let t = f.split(':').nth(1).and_then(|s| s.split('x').next()).unwrap_or("?");
+            format!("F1u:arith-untyped-literal:{t}")
+        }
+        // AT bindings of time-like types: the area does not matter
+        "F9" if f.starts_with("at-binding:") => {
+            format!("F9:{}", f.rsplitn(2, ':').nth(1).unwrap_or(f))
+        }
+        fam => format!("{fam}:{f}"),
+    }
 }
 
 fn clip(s: &str, n: usize) -> String {
@@ -23,7 +42,7 @@ fn clip(s: &str, n: usize) -> String {
 
 pub fn judge_c01(c: &Case, r: &ProgResult) -> Vec<Violation> {
     let mut out = Vec::new();
-    let ff = format!("{}:{}", c.family, c.feature);
+    let ff = ff(c);
     match r {
         ProgResult::Rejected(_) => {}
         ProgResult::Abort(m) => out.push(viol(format!("C01/abort/{ff}"), format!("the process died while running an accepted program: {}", clip(m, 200)), c)),
@@ -48,15 +67,42 @@ pub fn judge_c01(c: &Case, r: &ProgResult) -> Vec<Violation> {
     out
 }
 
-/// numeric reading of a rendered leaf: integers exactly, reals by bits
-fn leaf_value(s: &str) -> String {
+/// Numeric reading of a rendered leaf, independent of the type tag (tags are C03's business):
+/// integers exactly, reals as f64 (an f32 widens exactly).
+#[derive(PartialEq, Debug)]
+enum Num {
+    Int(i128),
+    F(u64),
+    Other(String),
+}
+
+fn leaf_num(s: &str) -> Num {
     let (tag, mag) = parse_leaf(s);
     match tag.as_str() {
         "SInt" | "Int" | "DInt" | "LInt" | "USInt" | "UInt" | "UDInt" | "ULInt" => match mag {
-            Some(m) => format!("int:{m}"),
-            None => s.to_string(),
+            Some(m) => Num::Int(m),
+            None => Num::Other(s.to_string()),
         },
-        _ => s.to_string(),
+        "Real" | "LReal" => {
+            // "Real(1.5/0x3fc00000)"
+            let hex = s.rsplit("/0x").next().unwrap_or("").trim_end_matches(')');
+            match u64::from_str_radix(hex, 16) {
+                Ok(bits) if tag == "Real" => Num::F((f32::from_bits(bits as u32) as f64).to_bits()),
+                Ok(bits) => Num::F(bits),
+                Err(_) => Num::Other(s.to_string()),
+            }
+        }
+        _ => Num::Other(s.to_string()),
+    }
+}
+
+fn same_value(a: &str, b: &str) -> bool {
+    match (leaf_num(a), leaf_num(b)) {
+        (Num::Int(x), Num::Int(y)) => x == y,
+        (Num::F(x), Num::F(y)) => x == y,
+        (Num::Int(x), Num::F(y)) | (Num::F(y), Num::Int(x)) => (x as f64).to_bits() == y,
+        (Num::Other(x), Num::Other(y)) => x == y,
+        _ => false,
     }
 }
 
@@ -66,7 +112,7 @@ pub fn judge_c02(c: &Case, r: &ProgResult, excluded: &mut u64) -> Vec<Violation>
         return out;
     }
     let ProgResult::Ran(obs) = r else { return out };
-    let ff = format!("{}:{}", c.family, c.feature);
+    let ff = ff(c);
     let reference = reference_run(&c.prog, c.cycles);
     for (k, exp) in reference.iter().enumerate() {
         let Some((exp_outcome, exp_state)) = exp else {
@@ -108,7 +154,7 @@ pub fn judge_c02(c: &Case, r: &ProgResult, excluded: &mut u64) -> Vec<Violation>
             let Some(ev) = ev else { continue };
             match o.dump.get(path) {
                 Some(av) => {
-                    if leaf_value(av) != leaf_value(ev) {
+                    if !same_value(av, ev) {
                         diffs.push(format!("{path}: reference {ev}, runtime {av}"));
                     }
                 }
@@ -141,7 +187,7 @@ pub fn judge_c03(c: &Case, r: &ProgResult) -> Vec<Violation> {
         for (path, ty, tag, in_range) in tag_violations(&decl, &o.dump) {
             let clause = if in_range { "tag" } else { "range" };
             out.push(viol(
-                format!("C03/{clause}/{}:{}:{}<-{}", c.family, c.feature, ty.name(), tag),
+                format!("C03/{clause}/{}:{}<-{}", ff(c), ty.name(), tag),
                 format!("after cycle {} ({}), {path} declared {} holds {}", k + 1, o.outcome, ty.name(), o.dump.get(&path).cloned().unwrap_or_default()),
                 c,
             ));
@@ -258,6 +304,7 @@ pub fn replay(prop: &str, case: &Value) -> Vec<Violation> {
         prog,
         cycles: case["cycles"].as_u64().unwrap_or(1) as usize,
         reference: case["reference"].as_bool().unwrap_or(false),
+        raw: case["raw"].as_str().map(str::to_string),
     };
     let Ok(results) = run_corpus(1, std::slice::from_ref(&c), None) else { return Vec::new() };
     let Some(Some(r)) = results.first() else { return Vec::new() };
